@@ -93,7 +93,7 @@ template <class Arch> void history(vf::Ctx& c) {
 }
 
 template <class T> void run_type(vf::Ctx& c, const char* tname, bool withPrior) {
-	if constexpr (ARCH == XML && is_non_name_key_map<T>::value) { c.label("excluded:KF-44-xml-non-name-keys"); c.discard("KF-44"); }
+	if constexpr (ARCH == XML && (is_non_name_key_map<T>::value || std::is_same_v<T, EmptyKey>)) { c.label("excluded:KF-44-xml-non-name-keys"); c.discard("KF-44"); }
 	GenCtx g = GenCtx::forArch(ARCH);
 	Cfg cfg = gen_cfg(c.src, ARCH);
 	g.noNulChar = cfg.stream && !cfg.opt.streamOptions.writeBom;
